@@ -322,3 +322,67 @@ def rule_m3(ctx):
                         "words and matrices are accumulated in different "
                         "loops: their orders need not agree",
                         instance=f"{FN}:accumulate")
+
+
+def rule_m4(ctx):
+    r = ctx.r
+    r.rule("M4", "in the per-label loop of _automaton_accepted a channel "
+                 "updated from its own previous value (X = g(label, X)) is "
+                 "re-initialised from the recursion's result earlier in the "
+                 "same iteration: otherwise parallel edges are applied on "
+                 "top of each other")
+    f = ctx.p.get_function(REP, FN)
+    parents = f.module.parents
+    loops = [n for n in ast.walk(f.node) if isinstance(n, ast.For)]
+    inner = [l for l in loops
+             if not any(isinstance(x, ast.For) and x is not l
+                        for x in ast.walk(l))]
+    n_inst = 0
+    for lp in inner:
+        body_nodes = list(ast.walk(lp))
+        for st in body_nodes:
+            if not isinstance(st, ast.Assign) or len(st.targets) != 1 \
+                    or not isinstance(st.targets[0], ast.Name):
+                continue
+            x = st.targets[0].id
+            reads = [n for n in ast.walk(st.value)
+                     if isinstance(n, ast.Name) and n.id == x
+                     and isinstance(n.ctx, ast.Load)]
+            # comprehension variables shadowing do not count
+            if not reads:
+                continue
+            n_inst += 1
+            # an earlier non-self-referential binding inside the loop body
+            init = False
+            for s2 in body_nodes:
+                if s2 is st:
+                    continue
+                if isinstance(s2, ast.Assign) and (s2.lineno, s2.col_offset) \
+                        < (st.lineno, st.col_offset):
+                    tg = []
+                    for t in s2.targets:
+                        tg += [e.id for e in ast.walk(t)
+                               if isinstance(e, ast.Name)]
+                    if x in tg and not any(
+                            isinstance(n, ast.Name) and n.id == x
+                            for n in ast.walk(s2.value)):
+                        init = True
+            inst = f"{FN}:{norm_stmt(st)[:60]}"
+            if init:
+                r.ok("M4", inst, loc(f, st), norm_stmt(st)[:120],
+                     f"`{x}` is re-bound from the recursion result earlier "
+                     "in the same iteration")
+            else:
+                r.violation(
+                    "M4", f"{f.fq}|{norm_stmt(st)[:100]}", loc(f, st),
+                    norm_stmt(st)[:160],
+                    f"`{x}` is updated from its own previous value inside "
+                    f"the loop `for {dotted(lp.target)} in {dotted(lp.iter)}` "
+                    "but is only initialised outside that loop: for a "
+                    "second label between the same two states the update is "
+                    "applied on top of the first label's result (wrong words "
+                    "and matrices for automata with parallel edges)",
+                    instance=inst)
+    if n_inst == 0:
+        r.note("M4", loc(f, f.node), FN, "no self-referential channel "
+               "update in an innermost loop; nothing to check")
